@@ -14,6 +14,8 @@ var pureLibrary = map[string]bool{
 	"(net/url.Values).Set":                 false, // writes the url.Values map only
 	"(net/url.Values).Add":                 false,
 	"github.com/pb33f/libopenapi/orderedmap.New": false, // constructor: fresh object, modelled heap untouched
+	"github.com/pb33f/libopenapi/datamodel/high/base.CreateSchemaProxy":    false, // wraps the schema in a new proxy object (one composite literal)
+	"github.com/pb33f/libopenapi/datamodel/high/base.CreateSchemaProxyRef": false,
 	"encoding/json.Marshal":                true, // a function of the value (maps are marshalled with sorted keys)
 	"strconv.FormatInt":                    true,
 	"strconv.FormatUint":                   true,
@@ -147,6 +149,15 @@ func (ex *Exec) libraryPostFacts(p *Path, full string, out []Value) {
 		ex.c.Trust("net/http: Client.Do returns a non-nil response with a non-nil Body when err == nil")
 		if len(out) == 2 {
 			p.Assume(implies(ex.isNilTerm(out[1]), not(ex.isNilTerm(out[0]))))
+		}
+	case "github.com/pb33f/libopenapi/datamodel/high/base.CreateSchemaProxy", "github.com/pb33f/libopenapi/datamodel/high/base.CreateSchemaProxyRef":
+		ex.c.Trust("libopenapi base.CreateSchemaProxy / CreateSchemaProxyRef return a new non-nil proxy and modify nothing (each is one composite literal)")
+		if len(out) == 1 && ex.c.SortOf(out[0].Ty) == "Ref" {
+			p.Assume(not(ex.isNilTerm(out[0])))
+			for _, a := range p.allocs {
+				p.Assume("(not (= " + out[0].T + " " + a + "))")
+			}
+			p.allocs = append(p.allocs, out[0].T)
 		}
 	case "github.com/pb33f/libopenapi/orderedmap.New":
 		// constructor: a fresh, non-nil ordered map
